@@ -76,8 +76,10 @@ def step (st : DState) (line : String) : DState × Option String :=
   | [id, "B", src] => (st, some s!"{id} {canonOut (buildStr st.fs (unhexStr src))}")
   | [id, "X", t] => (st, some s!"{id} {exprCanon (unhexStr t)}")
   | [id, "H", img] =>
+    -- the code writer gets the image, the EEPROM writer the same image with every byte xor 0x5a
     let bs := unhexNats img
-    (st, some s!"{id} HEX {hexOfStr (Hex.fileText bs)}")
+    let es := bs.map fun b => Nat.xor b 0x5a
+    (st, some s!"{id} HEX2 {hexOfStr (Hex.fileText bs)} {hexOfStr (Hex.fileText es)}")
   | [id, "F", main, dirs] =>
     let ds := if dirs == "-" then [] else (dirs.splitOn ",").map unhexStr
     (st, some s!"{id} {canonOut (buildFile st.fs (unhexStr main) ds)}")
